@@ -14,13 +14,26 @@ Definition acall_eqb (a b : acall) : bool :=
 Definition aresult_eqb (a b : aresult) : bool :=
   match a, b with AOk, AOk | AErrNode, AErrNode | AErrPool, AErrPool | AErrDisconnect, AErrDisconnect => true | _, _ => false end.
 
+(* the property prescribes which calls a round makes, not their order: compare as multisets *)
+Fixpoint remove_call (x : acall) (l : list acall) : option (list acall) :=
+  match l with
+  | [] => None
+  | y :: r => if acall_eqb x y then Some r
+              else match remove_call x r with Some r' => Some (y :: r') | None => None end
+  end.
+Fixpoint calls_perm_eqb (a b : list acall) : bool :=
+  match a with
+  | [] => match b with [] => true | _ => false end
+  | x :: r => match remove_call x b with Some b' => calls_perm_eqb r b' | None => false end
+  end.
+
 Fixpoint c18_first_diff (cfg : acfg) (rs : list c18_round) (k : nat) : option nat :=
   match rs with
   | [] => None
   | r :: rest =>
       let i := r18_in r in
       let '(calls, res) := update_round cfg (ri_node_ok i) (ri_locals i) (ri_reply i) (ri_drop_errors i) (ri_peer i) (ri_cf i) in
-      if list_eqb acall_eqb calls (r18_calls r) && aresult_eqb res (r18_result r)
+      if calls_perm_eqb calls (r18_calls r) && aresult_eqb res (r18_result r)
       then c18_first_diff cfg rest (S k) else Some k
   end.
 Definition c18_check (c : c18_case) : bool := match c18_first_diff (c18_cfg c) (c18_rounds c) 0 with None => true | Some _ => false end.
